@@ -213,8 +213,13 @@ def gen_cscd(rng, spc):
     assert len(body) <= 20
     ident = {"code_set": rng.choice([1, 2, 3]), "association": rng.choice([0, 1, 2]), "designator_type": dtype,
              "designator_length": len(body), "designator": dv}
+    # the library also accepts the (unique) description strings of its device type table
+    DESCR = {0x00: "Direct access block device (e.g., magnetic disk)", 0x01: "Sequential access device (e.g., magnetic tape)",
+             0x03: "Processor device", 0x05: "CD/DVD device", 0x0E: "Simplified direct access device (e.g., magnetic disk)",
+             0x04: "Write-once device (e.g., some optical disks)", 0x07: "Optical memory device (e.g., some optical disks)"}
+    devt_arg = DESCR[devt] if rng.random() < 0.3 else devt
     d = {"descriptor_type_code": rng.choice([0xE4, "Identification descriptor target descriptor" if spc == 4 else "Identification Descriptor CSCD descriptor"]),
-         "peripheral_device_type": devt, "relative_initiator_port_identifier": gen.rand_value(rng, 16), pk: ident}
+         "peripheral_device_type": devt_arg, "relative_initiator_port_identifier": gen.rand_value(rng, 16), pk: ident}
     if rng.getrandbits(1):
         d["lu_id_type"] = 0
     exp = {"descriptor_type_code": 0xE4, "lu_id_type": 0, "peripheral_device_type": devt,
